@@ -27,16 +27,18 @@ pub struct GenOpts {
     /// percentage of non-leaf positions filled by repeating an earlier binder-free subexpression of the same body
     /// (common subexpressions: what the cl23+ CSE pass looks for)
     pub repeat: u32,
+    /// percentage of let / assign binders that re-bind a name already in scope (shadowing) instead of a fresh name
+    pub shadow: u32,
 }
 
 impl GenOpts {
     pub fn core() -> GenOpts {
         GenOpts { max_helpers: 3, max_params: 4, depth: 3, lets: true, assign: false, lambda: false, rest: false, fnval: false, macros: false,
-            defconst: false, nested_mod: false, at_patterns: false, all_ops: false, big_literals: false, repeat: 0 }
+            defconst: false, nested_mod: false, at_patterns: false, all_ops: false, big_literals: false, repeat: 0, shadow: 0 }
     }
     pub fn full() -> GenOpts {
         GenOpts { max_helpers: 5, max_params: 6, depth: 4, lets: true, assign: true, lambda: true, rest: true, fnval: true, macros: true,
-            defconst: false, nested_mod: false, at_patterns: true, all_ops: true, big_literals: true, repeat: 0 }
+            defconst: false, nested_mod: false, at_patterns: true, all_ops: true, big_literals: true, repeat: 0, shadow: 12 }
     }
     /// programs rich in repeated subexpressions
     pub fn cse() -> GenOpts {
@@ -45,7 +47,7 @@ impl GenOpts {
     /// what the classic compiler accepts
     pub fn classic() -> GenOpts {
         GenOpts { max_helpers: 4, max_params: 6, depth: 3, lets: false, assign: false, lambda: false, rest: false, fnval: false, macros: true,
-            defconst: false, nested_mod: false, at_patterns: false, all_ops: true, big_literals: true, repeat: 0 }
+            defconst: false, nested_mod: false, at_patterns: false, all_ops: true, big_literals: true, repeat: 0, shadow: 0 }
     }
 }
 
@@ -73,6 +75,17 @@ impl Gen {
     pub fn new(rng: ChaCha8Rng, o: GenOpts) -> Gen {
         Gen { rng, o, counter: 0, let_depth: 0, pool: vec![] }
     }
+    /// the name of a new let / assign binder: fresh, or (shadowing) a variable already in scope that this binding
+    /// group has not bound yet
+    fn binder(&mut self, prefix: &str, scope: &[String], taken: &[String]) -> String {
+        if self.o.shadow > 0 && self.rng.random_range(0..100) < self.o.shadow {
+            let cands: Vec<&String> = scope.iter().filter(|n| !taken.contains(n) && !n.starts_with("KONST") && !n.starts_with('M')).collect();
+            if !cands.is_empty() {
+                return cands[self.rng.random_range(0..cands.len())].clone();
+            }
+        }
+        self.fresh(prefix)
+    }
     fn fresh(&mut self, prefix: &str) -> String {
         self.counter += 1;
         format!("{}{}", prefix, self.counter)
@@ -80,7 +93,16 @@ impl Gen {
 
     pub fn literal(&mut self) -> V {
         let r = &mut self.rng;
-        match r.random_range(0..16) {
+        match r.random_range(0..18) {
+            16 => {
+                // nested data whose elements look like code: (1), (q), (1 . 5), (2 3): a quoted constant must survive as is
+                let pool = [V::list(&[V::int(1)]), V::cons(V::int(1), V::int(5)), V::list(&[V::int(2), V::int(3)]),
+                    V::list(&[V::int(1), V::int(2)]), V::int(2), V::nil(), V::list(&[V::list(&[V::int(1)])]), V::cons(V::int(2), V::cons(V::int(1), V::int(1)))];
+                let n = r.random_range(1..=3);
+                let items: Vec<V> = (0..n).map(|_| pool[r.random_range(0..pool.len())].clone()).collect();
+                if r.random_bool(0.7) { V::list(&items) } else { V::list_tail(&items, V::int(1)) }
+            }
+            17 => V::list(&[V::int(1)]),
             0 => V::nil(),
             1..=5 => V::int(r.random_range(0..20)),
             6 => V::int(-(r.random_range(1..300) as i64)),
@@ -229,6 +251,12 @@ impl Gen {
             if !f.inline && self.rng.random_range(0..12) == 0 {
                 n += 1;
             }
+            // sometimes fewer positional arguments: the remaining named positions are supplied through the &rest tail
+            let mut short = 0;
+            if self.o.rest && n == f.nparams && n > 0 && !f.improper && self.rng.random_range(0..8) == 0 {
+                short = self.rng.random_range(1..=n);
+                n -= short;
+            }
             let mut args: Vec<Expr> = (0..n).map(|_| sub!()).collect();
             // arguments bound to a destructuring position get a value of fitting shape more often than not
             let mut cur = &f.pat;
@@ -240,8 +268,17 @@ impl Gen {
                     cur = rest;
                 }
             }
-            let rest = if (f.improper || self.o.rest && self.rng.random_range(0..6) == 0) && self.o.rest {
-                Some(Box::new(if self.rng.random_bool(0.5) { Expr::List((0..self.rng.random_range(0..3)).map(|_| sub!()).collect()) } else { sub!() }))
+            let rest = if short > 0 {
+                let extra = self.rng.random_range(0..2);
+                Some(Box::new(Expr::List((0..short + extra).map(|_| sub!()).collect())))
+            } else if (f.improper || self.o.rest && self.rng.random_range(0..6) == 0) && self.o.rest {
+                Some(Box::new(if self.o.shadow > 0 && self.o.lets && !scope.is_empty() && self.rng.random_range(0..4) == 0 {
+                    // a let in the tail that re-binds a name of the enclosing scope and uses it
+                    let x = scope[self.rng.random_range(0..scope.len())].clone();
+                    let e = sub!();
+                    let body = if self.rng.random_bool(0.5) { Expr::List(vec![Expr::Var(x.clone()), sub!()]) } else { Expr::Prim(4, vec![Expr::Var(x.clone()), sub!()]) };
+                    Expr::Let(self.rng.random_bool(0.5), vec![(x, e)], Box::new(body))
+                } else if self.rng.random_bool(0.5) { Expr::List((0..self.rng.random_range(0..3)).map(|_| sub!()).collect()) } else { sub!() }))
             } else {
                 None
             };
@@ -253,11 +290,15 @@ impl Gen {
             let n = self.rng.random_range(1..=2);
             let mut bs = vec![];
             let mut inner: Vec<String> = scope.to_vec();
+            let mut taken: Vec<String> = vec![];
             for _ in 0..n {
-                let name = self.fresh("L");
+                let name = self.binder("L", scope, &taken);
+                taken.push(name.clone());
                 let e = if seq { self.expr(d, &inner, fns, consts, macros) } else { sub!() };
                 bs.push((name.clone(), e));
-                inner.push(name);
+                if !inner.contains(&name) {
+                    inner.push(name);
+                }
             }
             let body = self.expr(d, &inner, fns, consts, macros);
             self.let_depth -= 1;
@@ -268,13 +309,29 @@ impl Gen {
             let mut bs = vec![];
             let mut inner: Vec<String> = scope.to_vec();
             for _ in 0..self.rng.random_range(1..=2) {
-                if self.rng.random_range(0..3) == 0 {
+                let shape = self.rng.random_range(0..9);
+                if shape == 0 {
+                    // nested destructuring: ((A . B) . C), (A (B . C)), (A B)
+                    let (a, b, c) = (self.fresh("S"), self.fresh("S"), self.fresh("S"));
+                    let (e1, e2, e3) = (self.expr(d, &inner, fns, consts, macros), self.expr(d, &inner, fns, consts, macros), self.expr(d, &inner, fns, consts, macros));
+                    let v = |n: &String| Box::new(Pat::Var(n.clone()));
+                    let (pat, e) = match self.rng.random_range(0..3) {
+                        0 => (Pat::Cons(Box::new(Pat::Cons(v(&a), v(&b))), v(&c)), Expr::Prim(4, vec![Expr::Prim(4, vec![e1, e2]), e3])),
+                        1 => (Pat::list(vec![Pat::Var(a.clone()), Pat::Cons(v(&b), v(&c))], Pat::Nil), Expr::List(vec![e1, Expr::Prim(4, vec![e2, e3])])),
+                        _ => (Pat::list(vec![Pat::Var(a.clone()), Pat::Var(b.clone())], Pat::Var(c.clone())), Expr::Prim(4, vec![e1, Expr::Prim(4, vec![e2, e3])])),
+                    };
+                    bs.push((pat, e));
+                    inner.push(a);
+                    inner.push(b);
+                    inner.push(c);
+                } else if shape < 4 {
                     let (a, b) = (self.fresh("S"), self.fresh("S"));
                     let e = Expr::Prim(4, vec![self.expr(d, &inner, fns, consts, macros), self.expr(d, &inner, fns, consts, macros)]);
                     bs.push((Pat::Cons(Box::new(Pat::Var(a.clone())), Box::new(Pat::Var(b.clone()))), e));
                     inner.push(a);
                     inner.push(b);
                 } else {
+                    // (assign binders stay fresh: every name of an assign form is in scope in all of its bindings)
                     let a = self.fresh("S");
                     let e = self.expr(d, &inner, fns, consts, macros);
                     bs.push((Pat::Var(a.clone()), e));
